@@ -506,6 +506,24 @@ verus_unit(
     },
 )
 
+# ---------------- Verus unit: bit-level stack / queue coders (symbol/mod.rs)
+verus_unit(
+    name="bits", template="bits_unit.rs.tmpl",
+    widths=["u8_u16", "u16_u32", "u32_u64"],   # only the Word column is used: Word = u8, u16, u32
+    slots={
+        "STACK_WRITE": dict(file="src/symbol/mod.rs", anchor="WriteBitStream<Stack> for StackCoder<Word, B>", fn="write_bit", extra=[]),
+        "STACK_READ": dict(file="src/symbol/mod.rs", anchor="ReadBitStream<Stack> for StackCoder<Word, B>", fn="read_bit", extra=[]),
+        "QUEUE_WRITE": dict(file="src/symbol/mod.rs", anchor="WriteBitStream<Queue> for QueueEncoder<Word, B>", fn="write_bit", extra=[]),
+        "QUEUE_READ": dict(file="src/symbol/mod.rs", anchor="ReadBitStream<Queue> for QueueDecoder<Word, B>", fn="read_bit", extra=[]),
+    },
+    obligations={
+        "stack_write_bit": dict(own=["C16"], dep=["C08"], kani_twin="bits::stack_write_read", text="ensures: bit view' == view.push(bit) for every fill level of the partial word and any backend length; a refused write leaves the coder intact"),
+        "stack_read_bit": dict(own=["C16"], dep=["C08"], kani_twin="bits::stack_write_read", text="ensures: None iff the view is empty (coder untouched); else Some(view.last()) and view' == view.drop_last()"),
+        "queue_write_bit": dict(own=["C16"], dep=["C08"], kani_twin="bits::queue_roundtrip", text="ensures: bit view' == view.push(bit)"),
+        "queue_read_bit": dict(own=["C16"], dep=[], kani_twin="bits::queue_roundtrip", text="ensures: returns bit number `cursor` of the backend's words (LSB first) and advances the cursor by one; None iff the cursor is at the end"),
+    },
+)
+
 # ---------------- Verus unit: chain coder decoding step (chain.rs)
 _CH_DEC = "Decode<PRECISION>\n    for ChainCoder<Word, State, CompressedBackend, RemaindersBackend, PRECISION>"
 verus_unit(
